@@ -1,4 +1,5 @@
 //@ contract nitrogql_checker::type_system_checker ::fn check_enum
+//@   requires [C05.ts_enum.pre_schema_wf] crate::schema_wf(&definitions.type_system)
 //@   ensures [C05.ts_enum.frame] crate::extends_errs(old(result)@, final(result)@)
 //@   ensures [C05.ts_enum.sound] final(result)@.len() == old(result)@.len() ==> crate::valid_enum(enum_def, definitions)
 //@   ensures [C05.ts_enum.complete] crate::valid_enum(enum_def, definitions) ==> final(result)@.len() == old(result)@.len()
